@@ -204,8 +204,21 @@ func c02WorkerMain(script string) {
 		fmt.Fprintln(os.Stderr, "worker:", err)
 		os.Exit(3)
 	}
-	out := bufio.NewWriterSize(os.Stdout, 1<<24)
-	defer out.Flush()
+	// results go to a file through pwrite64 at the very end: `write` syscalls are storage writes only,
+	// so strace's `inject=write:…:when=N` counts exactly those
+	var outBuf bytes.Buffer
+	out := bufio.NewWriterSize(&outBuf, 1<<20)
+	defer func() {
+		out.Flush()
+		if rp := os.Getenv("HX_STOR_RESULTS"); rp != "" {
+			if f, err := os.OpenFile(rp, os.O_CREATE|os.O_WRONLY, 0o644); err == nil {
+				_, _ = f.WriteAt(outBuf.Bytes(), 0)
+				_ = f.Close()
+			}
+		} else {
+			_, _ = os.Stdout.Write(outBuf.Bytes())
+		}
+	}()
 	sc := bufio.NewScanner(in)
 	sc.Buffer(make([]byte, 1<<20), 1<<28)
 	var dir string
@@ -348,6 +361,7 @@ type c02Sys struct {
 	Off  int64
 	Data []byte // bytes actually transferred (short writes: the prefix)
 	Want int    // bytes requested (write)
+	Req  []byte // the whole buffer handed to write (also when the write failed)
 	Res  string // ok | err | short
 	Kind string // classification of a write: fh:<nl> | nm | bh:<id> | bp:<id> | raw
 }
@@ -492,7 +506,7 @@ func c02ParseTrace(r io.Reader, dirOf func(cmd int) string) ([]c02Sys, error) {
 			}
 			data := c02Unescape(c02Quoted(args[1]))
 			want, _ := strconv.Atoi(args[2])
-			s := c02Sys{Cmd: cmd, Op: "write", Path: cls, Want: want}
+			s := c02Sys{Cmd: cmd, Op: "write", Path: cls, Want: want, Req: data}
 			if name == "pwrite64" {
 				s.Off, _ = strconv.ParseInt(args[3], 10, 64)
 			} else {
@@ -608,11 +622,13 @@ func c02RunTraced(script []string, extraStrace []string) (results []string, sys 
 	args = append(args, extraStrace...)
 	args = append(args, self)
 	cmd := exec.Command("strace", args...)
-	cmd.Env = append(os.Environ(), "HX_STOR_WORKER="+sp)
+	rp := filepath.Join(tmp, "results")
+	cmd.Env = append(os.Environ(), "HX_STOR_WORKER="+sp, "HX_STOR_RESULTS="+rp)
 	var so, se bytes.Buffer
 	cmd.Stdout, cmd.Stderr = &so, &se
 	runErr := cmd.Run()
-	for _, l := range strings.Split(so.String(), "\n") {
+	resBytes, _ := os.ReadFile(rp)
+	for _, l := range strings.Split(string(resBytes), "\n") {
 		if strings.HasPrefix(l, "r ") {
 			results = append(results, l)
 		}
@@ -713,6 +729,9 @@ func (c *c02Classifier) classify(sys []c02Sys) {
 			continue
 		}
 		full := s.Data
+		if len(s.Req) == s.Want && s.Want > 0 {
+			full = s.Req
+		}
 		switch {
 		case s.Want == 64 && s.Off == 0 && ((len(full) >= 4 && string(full[:4]) == "HYDR") || s.Res == "err"):
 			s.Kind = "fh"
@@ -721,20 +740,22 @@ func (c *c02Classifier) classify(sys []c02Sys) {
 			}
 		case s.Off == 64 && i > 0 && strings.HasPrefix(sys[i-1].Kind, "fh") && sys[i-1].Path == s.Path && s.Want != 16:
 			s.Kind = "nm"
-		case s.Want == 16 && s.Res == "ok":
+		case s.Want == 16 && s.Res == "ok" && len(full) == 16:
 			j := i + 1
 			for j < len(sys) && !(sys[j].Op == "write" && sys[j].Path == s.Path) {
 				j++
 			}
 			size := int(binary.LittleEndian.Uint32(full[0:4]))
 			if j < len(sys) && sys[j].Want == size && sys[j].Kind == "" {
-				// the payload may itself be cut short by a fault: parse what was requested if we have it
-				if sys[j].Res == "ok" {
-					if id, ok := c.register(full, sys[j].Data); ok {
-						s.Kind = "bh:" + strconv.Itoa(id)
-						sys[j].Kind = "bp:" + strconv.Itoa(id)
-						continue
-					}
+				// the payload write may have failed: the block is what was *requested*
+				pay := sys[j].Data
+				if len(sys[j].Req) == sys[j].Want {
+					pay = sys[j].Req
+				}
+				if id, ok := c.register(full, pay); ok {
+					s.Kind = "bh:" + strconv.Itoa(id)
+					sys[j].Kind = "bp:" + strconv.Itoa(id)
+					continue
 				}
 			}
 			s.Kind = "raw"
@@ -1330,6 +1351,14 @@ func c02EmitCase(w *bufio.Writer, co c02CaseOut, imgFor func(ki int, c c02CmdOut
 				rs = append(rs, r)
 			}
 			fmt.Fprintln(w, "res "+strings.Join(rs, ","))
+			// a block whose header write failed never shows its payload: hand the model the 16
+			// header bytes the code tried to write (they steer the reader if a fragment stays behind)
+			for _, s := range c.Sys {
+				if s.Op == "write" && s.Want == 16 && s.Res != "ok" && len(s.Req) == 16 && !strings.HasPrefix(s.Kind, "b") {
+					fmt.Fprintln(w, "phantom "+hex.EncodeToString(s.Req))
+					break
+				}
+			}
 		}
 		switch f[0] {
 		case "chron":
@@ -1382,7 +1411,7 @@ func c02EmitCase(w *bufio.Writer, co c02CaseOut, imgFor func(ki int, c c02CmdOut
 			} else {
 				fmt.Fprintln(w, "act load - "+st)
 			}
-		case "plant", "live", "fsize":
+		case "plant", "live", "fsize", "fsizeplus":
 		default:
 			fmt.Fprintln(w, "act "+c.Text)
 		}
@@ -1546,6 +1575,8 @@ func c02RunOps(in *bufio.Scanner, w *bufio.Writer, probe bool) {
 		case "blk":
 			r.blocks[f[1]] = f[4]
 			fmt.Fprintln(w, "ok")
+		case "res", "phantom":
+			fmt.Fprintln(w, "ok")
 		case "act":
 			switch f[1] {
 			case "load":
@@ -1567,7 +1598,11 @@ func c02RunOps(in *bufio.Scanner, w *bufio.Writer, probe bool) {
 			if res == "short" {
 				res = "short:" + strconv.Itoa(len(s.Data))
 			}
-			fmt.Fprintf(w, "%s %s %s %s %s %s %s\n", s.Op, s.Path, to, f[5], f[6], r.kindText(s.Kind), res)
+			kind := r.kindText(s.Kind)
+			if s.Res != "ok" {
+				kind = "-" // a failed write is compared by position and length only
+			}
+			fmt.Fprintf(w, "%s %s %s %s %s %s %s\n", s.Op, s.Path, to, f[5], f[6], kind, res)
 		case "img":
 			i, _ := strconv.Atoi(f[1])
 			j, _ := strconv.Atoi(f[2])
